@@ -226,6 +226,34 @@ class OpsDomain(SymDomain):
             self.interp.call_function(c[0], o, [])
         return o
 
+    def param_used(self, qn, idx):
+        """does the body of function qn mention its idx-th parameter at all? (derived from the IR on every run)"""
+        key = (qn, idx)
+        cache = self.__dict__.setdefault("_param_used", {})
+        if key not in cache:
+            fn = self.prog.fn(qn)
+            pid = fn["params"][idx]["id"]
+            cache[key] = any(n.get("k") == "Ref" and n.get("id") == pid for n in ir.walk(fn["body"]))
+        return cache[key]
+
+    def scratch_written(self, obj, args):
+        """which scratch arguments of solveInPlace the solver actually touches (read off the solver's source)"""
+        cls = obj.cls
+        if cls.startswith("SymmetricTridiagonalSolver"):
+            out = []
+            if obj.f["is_cyclic_"].get():
+                q = cls + "::solveSymmetricCyclicTridiagonal"   # (x, u = temp1, scratch = temp2)
+                if len(args) > 1 and self.param_used(q, 1):
+                    out.append(args[1])
+                if len(args) > 2 and self.param_used(q, 2):
+                    out.append(args[2])
+            else:
+                q = cls + "::solveSymmetricTridiagonal"  # (x, scratch = temp1)
+                if len(args) > 1 and self.param_used(q, 1):
+                    out.append(args[1])
+            return out
+        return list(args[1:])
+
     def solver_summary(self, obj, mname, args, e, fr):
         """footprint summary of a line / LU solve (DESIGN 3.3): reads and writes rhs[off..off+n), writes the scratch
         vectors, reads+writes the solver object (first solve factorises). The solution becomes fresh unknowns."""
@@ -250,7 +278,7 @@ class OpsDomain(SymDomain):
         rows = {}
         for i in range(n):
             rows[i] = symdom.SElem(arr, p.off + i, self, site).get()
-        for s_ in args[1:]:
+        for s_ in self.scratch_written(obj, args):
             if isinstance(s_, SArr):
                 s_ = PtrInto(s_, 0)
             if isinstance(s_, PtrInto):
